@@ -215,6 +215,9 @@ M("c05-assign-switch-all-cases", ["C05"], PYEVAL,
   '                _eval_assign_inner(sim, val, lhs_start, rhs, rhs_len)\n                return', '                _eval_assign_inner(sim, val, lhs_start, rhs, rhs_len)', "R-05d")
 
 # ------------------------------------------------------------------------------------------------ C03
+M("c03-reset-block-resets-read-ports", ["C03", "C11"], PYRTL,
+  "                        for (signal, _) in reg_masks.masks():\n                            if not signal.reset_less:\n                                signal_index = self.state.get_signal(signal)\n                                emitter.append(f\"next_{signal_index} = {signal.init}\")",
+  "                        for (signal, _) in lhs_masks.masks():\n                            if not signal.reset_less:\n                                signal_index = self.state.get_signal(signal)\n                                emitter.append(f\"next_{signal_index} = {signal.init}\")", "R-03b")
 M("c03-async-reset-unmasked", ["C03", "C08", "C20"], PYRTL,
   'emitter.append(f"slots[{signal_index}].update({signal.init}, {mask})")', 'emitter.append(f"slots[{signal_index}].update({signal.init})")', "R-03a")
 M("c03-async-reset-gets-read-ports", ["C03", "C08", "C20"], PYRTL,
